@@ -99,6 +99,13 @@ def repoGet : Repo → Str → Option ClusterSig
   | [], _ => none
   | (k, c) :: r, n => if k = n then some c else repoGet r n
 
+/-- `ConfigurationRepository(config, clusters=…)`: the clusters of the configuration are built from their cluster
+    configurations; an explicit `clusters` argument replaces the whole map (it is not merged key by key) -/
+def mkRepo (home : Str) (cfgClusters : List (Str × ClusterCfg)) (clustersArg : Option Repo) : Repo :=
+  match clustersArg with
+  | some r => r
+  | none => cfgClusters.map (fun kc => (kc.1, mkCluster home kc.2 none none))
+
 /-- `Environment.get_cluster(name)` for a named cluster: the first repository, in priority order, that defines it -/
 def getCluster : Env → Str → Option ClusterSig
   | [], _ => none
